@@ -68,7 +68,7 @@ def _path(arg):
 def project(lines, dest, tmp, directory):
     """-> (events, info).  info: killed (bool), window (bool: both markers seen or killed inside),
     calls: the per-name index (counted from process start, as strace's `when=` counts) of every
-    projected call, for building kill points."""
+    projected call, markers: the same for the two marker opens of the child - for building kill points."""
     dest, tmp, directory = os.path.normpath(dest), os.path.normpath(tmp), os.path.normpath(directory)
 
     def which(p):
@@ -83,7 +83,7 @@ def project(lines, dest, tmp, directory):
             return "x"
         return ""
 
-    events, fds, counts, calls = [], {}, {}, []
+    events, fds, counts, calls, markers = [], {}, {}, [], {}
     killed = False
     unfinished = {}
     for raw in lines:
@@ -117,6 +117,8 @@ def project(lines, dest, tmp, directory):
             pa = a[1] if name == "openat" else a[0]
             flags = "O_WRONLY|O_CREAT|O_TRUNC" if name == "creat" else (a[2] if name == "openat" else a[1])
             f = which(_path(pa))
+            if (_path(pa) or "").startswith("/verif-c13-marker/"):
+                markers[_path(pa).rsplit("/", 1)[1]] = {"name": name, "index": counts[name]}
             if f:
                 wr = "O_WRONLY" in flags or "O_RDWR" in flags
                 ev = {"call": "open", "f": f, "g": "", "n": 0, "m": 0, "wr": wr, "creat": "O_CREAT" in flags,
@@ -157,10 +159,11 @@ def project(lines, dest, tmp, directory):
             fd = int(a[0])
             if fd in fds:
                 ev = {"call": "close", "f": fds.pop(fd), "g": "", "n": 0, "m": 0, "wr": False, "creat": False, "trunc": False}
-        elif name in ("sendfile", "copy_file_range"):
+        elif name in ("sendfile", "copy_file_range"):          # bytes arriving in a file: a write of that many bytes
             fd = int(a[0]) if name == "sendfile" else int(a[2])
             if fd in fds:
-                raise StraceError(name + " into the destination directory is not modelled: " + text[:200])
+                n = int(a[3]) if name == "sendfile" else int(a[4])
+                ev = {"call": "write", "f": fds[fd], "g": "", "n": n, "m": max(rv, 0), "wr": True, "creat": False, "trunc": False}
         elif name in ("lseek", "dup", "dup2", "dup3"):
             pass
         if ev is None:
@@ -182,7 +185,7 @@ def project(lines, dest, tmp, directory):
             last["cnt"] += 1
         else:
             events.append(ev)
-    return events, {"killed": killed, "calls": calls, "counts": counts}
+    return events, {"killed": killed, "calls": calls, "counts": counts, "markers": markers}
 
 
 def case_events(raw):
@@ -194,7 +197,7 @@ def case_events(raw):
              "existed": raw["existed"], "tmp0": "dir" if fault.get("t") == "tmpisdir" else "absent", "traced": traced,
              "fault": fault_text(fault)}
     evs = [begin]
-    info = {"killed": False, "calls": [], "counts": {}}
+    info = {"killed": False, "calls": [], "counts": {}, "markers": {}}
     if traced:
         sys_events, info = project(raw["lines"], raw["dest"], raw["tmp"], raw["dir"])
         evs += sys_events
